@@ -1,8 +1,159 @@
+import QcoVerif.Model.Kernel
+import QcoVerif.Model.KernelCircuit
 /-
-  Stateless driver module `kernel`: `handle args` answers one line. Filled in by the Kernel model.
+  Stateless driver module `kernel`: `handle args` answers one line.
+
+  Lists are comma separated, the empty list is `-`; booleans are `0`/`1`; a state key is `0`/`1`/`2`.
+  An experiment is described by  `<rounds> <heralded> <qutrit> <data ids> <ancilla ids> <repetitions>`  (= EXP).
+
+    kernel exp EXP summary              → `start stop cycle length spans=s:e,s:e,…`   | `IndexError`
+    kernel exp EXP her  <qubit> <count> → rows `[a,b][c,d]…` (one bracket per repetition) | `none` (count not found)
+    kernel exp EXP sp   <qubit> <count> → same, stabilizer + projected
+    kernel exp EXP proj <qubit> <count> → same, projected only
+    kernel exp EXP pcal <qubit> <state> → `[a,b,…]` | `ValueError` (0 repetitions)
+    kernel exp EXP hcal <qubit> <state> → same, heralded calibration acquisitions
+    kernel exp EXP kern <i> <qubit>     → `her=[..] stab=[..] final=[..] contains=[..] start stop length` of the i-th
+                                           RepetitionIndexKernel | `IndexError`
+    kernel exp EXP cal  <qubit>         → `h0=[..] h1=[..] h2=[..] s0=[..] s1=[..] s2=[..] contains=[..] start stop length`
+    kernel exp EXP all  <qubits> <counts> → every getter above for every listed qubit and count, `;`-separated
+                                           (the order is fixed by `allAnswers` below and mirrored in harness/c12.py)
+    kernel est <rounds> <heralded> <qutrit> <dataset size> → `value n` | `AssertionError` | `IndexError` | `inexact`
+    kernel tags <rounds>                → per-ancilla tag sequence of the multi-round circuit: `h`,`p`,`f` letters
+    kernel tagidx <rounds> <tag>        → positions of the tag (`heralded`/`parity`/`final`) in that sequence, `[..]`
+    kernel circ <rounds> <role>         → role `anc`|`data`: `n=<count> heralded=[..] parity=[..] final=[..]`
+  Anything else: `bad-op`.
 -/
 namespace Qco.Driver.Kernel
 
-def handle (_args : List String) : String := "bad-op"
+open Qco.Kernel
+
+def parseNats (s : String) : Option (List Nat) :=
+  if s == "-" then some [] else (s.splitOn ",").mapM (fun t => t.toNat?)
+
+def parseBool (s : String) : Option Bool :=
+  match s with | "0" => some false | "1" => some true | _ => none
+
+def parseState (s : String) : Option StateKey :=
+  match s with | "0" => some .s0 | "1" => some .s1 | "2" => some .s2 | _ => none
+
+def showRow (l : List Int) : String := "[" ++ ",".intercalate (l.map toString) ++ "]"
+
+def showRows : Option (List (List Int)) → String
+  | none => "none"
+  | some [] => "none"      -- 0 repetitions: `np.asarray([])`, the same empty 1-d array as "not found"
+  | some rows => String.join (rows.map showRow)
+
+def showFlat (K : ExpKernel) (l : List Int) : String :=
+  if K.calRaises then "ValueError" else showRow l
+
+def showSummary (K : ExpKernel) : String :=
+  s!"{K.startIndex} {K.stopIndex} {K.cycleLength} {K.kernelLength} spans=" ++
+    ",".intercalate (K.spans.map (fun p => s!"{p.1}:{p.2}"))
+
+def showKern (K : ExpKernel) (i : Nat) (e : QId) : String :=
+  match K.repKernels[i]? with
+  | none => "IndexError"
+  | some k =>
+    s!"her={showRow (k.heraldedIdx e)} stab={showRow (k.stabIdx e)} final={showRow (k.finalIdx e)} " ++
+    s!"contains={showRow (k.contains e)} {k.startIndex} {k.stopIndex} {k.kernelLength}"
+
+def showCal (K : ExpKernel) (e : QId) : String :=
+  let c := K.calKernel
+  s!"h0={showRow (c.heralded0 e)} h1={showRow (c.heralded1 e)} h2={showRow (c.heralded2 e)} " ++
+  s!"s0={showRow (c.state0 e)} s1={showRow (c.state1 e)} s2={showRow (c.state2 e)} " ++
+  s!"contains={showRow (c.contains e)} {c.startIndex} {c.stopIndex} {c.kernelLength}"
+
+def allStates : List StateKey := [.s0, .s1, .s2]
+
+/-- every getter, for every qubit and every count; mirrored by `impl_all` in harness/c12.py -/
+def allAnswers (K : ExpKernel) (qs counts : List Nat) : String :=
+  let perQubit (e : QId) : List String :=
+    (counts.map (fun c =>
+      s!"her {e} {c} " ++ showRows (K.heraldedCycle e c) ++ ";" ++
+      s!"sp {e} {c} " ++ showRows (K.stabilizerAndProjectedCycle e c) ++ ";" ++
+      s!"proj {e} {c} " ++ showRows (K.projectedCycle e c))) ++
+    (allStates.zipIdx.map (fun (s, i) =>
+      s!"pcal {e} {i} " ++ showFlat K (K.projectedCalibration e s) ++ ";" ++
+      s!"hcal {e} {i} " ++ showFlat K (K.heraldedCalibration e s))) ++
+    ((List.range K.repKernels.length).map (fun i => s!"kern {i} {e} " ++ showKern K i e)) ++
+    [s!"cal {e} " ++ showCal K e]
+  ";".intercalate (("summary " ++ showSummary K) :: (qs.map perQubit).flatten)
+
+def handleExp (K : ExpKernel) : List String → String
+  | ["summary"] => showSummary K
+  | ["her", q, c] =>
+    match q.toNat?, c.toNat? with
+    | some e, some n => showRows (K.heraldedCycle e n) | _, _ => "bad-op"
+  | ["sp", q, c] =>
+    match q.toNat?, c.toNat? with
+    | some e, some n => showRows (K.stabilizerAndProjectedCycle e n) | _, _ => "bad-op"
+  | ["proj", q, c] =>
+    match q.toNat?, c.toNat? with
+    | some e, some n => showRows (K.projectedCycle e n) | _, _ => "bad-op"
+  | ["pcal", q, s] =>
+    match q.toNat?, parseState s with
+    | some e, some st => showFlat K (K.projectedCalibration e st) | _, _ => "bad-op"
+  | ["hcal", q, s] =>
+    match q.toNat?, parseState s with
+    | some e, some st => showFlat K (K.heraldedCalibration e st) | _, _ => "bad-op"
+  | ["kern", i, q] =>
+    match i.toNat?, q.toNat? with
+    | some n, some e => showKern K n e | _, _ => "bad-op"
+  | ["cal", q] =>
+    match q.toNat? with
+    | some e => showCal K e | none => "bad-op"
+  | ["all", qs, cs] =>
+    match parseNats qs, parseNats cs with
+    | some ql, some cl => allAnswers K ql cl | _, _ => "bad-op"
+  | _ => "bad-op"
+
+def showEstimate : Estimate → String
+  | .value n => s!"value {n}"
+  | .assertionError => "AssertionError"
+  | .indexError => "IndexError"
+  | .inexact => "inexact"
+
+def parseTag (s : String) : Option Circuit.Tag :=
+  match s with
+  | "heralded" => some .heralded | "parity" => some .parity | "final" => some .final | _ => none
+
+def tagLetter : Circuit.Tag → String
+  | .heralded => "h" | .parity => "p" | .final => "f"
+
+def showNats (l : List Nat) : String := "[" ++ ",".intercalate (l.map toString) ++ "]"
+
+def handle (args : List String) : String :=
+  match args with
+  | "exp" :: rounds :: h :: q :: data :: anc :: reps :: query =>
+    match parseNats rounds, parseBool h, parseBool q, parseNats data, parseNats anc, reps.toNat? with
+    | some rs, some hb, some qb, some dl, some al, some n =>
+      match ExpKernel.new? rs hb qb dl al n with
+      | none => "IndexError"
+      | some K => handleExp K query
+    | _, _, _, _, _, _ => "bad-op"
+  | ["est", rounds, h, q, dataset] =>
+    match parseNats rounds, parseBool h, parseBool q, dataset.toNat? with
+    | some rs, some hb, some qb, some d => showEstimate (estimate rs hb qb d)
+    | _, _, _, _ => "bad-op"
+  | ["tags", rounds] =>
+    match parseNats rounds with
+    | some rs => String.join ((Circuit.ancillaTags rs).map tagLetter)
+    | none => "bad-op"
+  | ["tagidx", rounds, tag] =>
+    match parseNats rounds, parseTag tag with
+    | some rs, some t => showNats (Circuit.positions t (Circuit.ancillaTags rs))
+    | _, _ => "bad-op"
+  | ["circ", rounds, role] =>
+    match parseNats rounds, role with
+    | some rs, "anc" =>
+      let s := Circuit.ancillaTags rs
+      s!"n={s.length} heralded={showNats (Circuit.positions .heralded s)} " ++
+      s!"parity={showNats (Circuit.positions .parity s)} final={showNats (Circuit.positions .final s)}"
+    | some rs, "data" =>
+      let s := Circuit.dataTags rs
+      s!"n={s.length} heralded={showNats (Circuit.positions .heralded s)} " ++
+      s!"parity={showNats (Circuit.positions .parity s)} final={showNats (Circuit.positions .final s)}"
+    | _, _ => "bad-op"
+  | _ => "bad-op"
 
 end Qco.Driver.Kernel
